@@ -40,6 +40,10 @@ def cstr(s):
         s = s.encode("latin-1")
     return "(str_of [" + ";".join("%d%%nat" % b for b in s) + "])"
 
+def ctext(s):
+    """python str -> Coq list of code points (text)"""
+    return "[" + "; ".join("%d" % ord(ch) for ch in s) + "]%Z"
+
 def clist(items):
     return "[" + "; ".join(items) + "]"
 
